@@ -53,6 +53,10 @@ pub struct ScenarioOpts {
     /// per-mille probability that 1..7 trailing bytes are appended to a generated
     /// contract's code (length not a multiple of 8: exercises the code padding). 0 = off.
     pub ragged_code: u32,
+    /// per-mille probability that the consensus parameters leave the standard identity:
+    /// random non-zero base asset id, another chain id, another `max_inputs` (moves the
+    /// transaction image in VM memory). 0 = never (no extra random draw).
+    pub vary_params: u32,
 }
 
 impl Default for ScenarioOpts {
@@ -70,6 +74,7 @@ impl Default for ScenarioOpts {
             mid_gas: 0,
             chain: 0,
             ragged_code: 0,
+            vary_params: 0,
         }
     }
 }
@@ -168,6 +173,16 @@ pub fn build(rng: &mut Rng, o: &ScenarioOpts) -> Scenario {
         let sp = *params.script_params();
         if matches!(sp, fuel_tx::ScriptParameters::V2(_)) {
             params.set_script_params(sp.with_max_storage_slot_length(m));
+        }
+    }
+    if o.vary_params > 0 && rng.below(1000) < o.vary_params as u64 {
+        params.set_base_asset_id(fuel_types::AssetId::new(rng.arr()));
+        if rng.bool() {
+            params.set_chain_id(fuel_types::ChainId::new(1 + rng.below(1 << 40)));
+        }
+        if rng.bool() {
+            let tp = *params.tx_params();
+            params.set_tx_params(tp.with_max_inputs(16 + rng.below(240) as u16));
         }
     }
     let mut world = World::new(params, o.gas_price);
